@@ -373,39 +373,47 @@ def check(repo: Repo, run: Run) -> None:
         from ..core.model import class_methods_n
 
         tstr = class_methods_n(tcls)["__str__"]
-        derived = set()
-        changed = True
-        while changed:
-            changed = False
-            for n in ast.walk(tstr):
-                if isinstance(n, ast.Assign):
-                    txt = ast.unparse(n.value)
-                    if "utcoffset" in txt or any(isinstance(x, ast.Name) and x.id in derived for x in ast.walk(n.value)):
-                        if "abs(" in txt and not any(isinstance(x, ast.Name) and x.id in derived and not _under_abs(x) for x in ast.walk(n.value)) and "utcoffset" not in txt.replace("abs(", "", 1):
-                            continue
-                        for t in n.targets:
-                            for x in ast.walk(t):
-                                if isinstance(x, ast.Name) and x.id not in derived:
-                                    derived.add(x.id)
-                                    changed = True
-        bad = []
-        for n in ast.walk(tstr):
-            operand = None
-            if isinstance(n, ast.BinOp) and isinstance(n.op, (ast.FloorDiv, ast.Mod)) and not isinstance(n.left, (ast.Constant, ast.JoinedStr)) and not (isinstance(n.left, ast.Constant) and isinstance(n.left.value, str)):
-                operand = n.left
-            if isinstance(n, ast.Call) and dotted(n.func) == "divmod" and n.args:
-                operand = n.args[0]
-            if operand is None:
-                continue
-            signed = any((isinstance(x, ast.Name) and x.id in derived) or (isinstance(x, ast.Attribute) and x.attr == "utcoffset") for x in ast.walk(operand))
-            if signed and "abs(" not in ast.unparse(operand):
-                bad.append(ast.unparse(n)[:60])
+        from ..core.paths import flat_conds as _fc, is_unknown as _unk, paths_of as _paths_of
+
+        try:
+            spaths = [p for p in _paths_of(ct, tcls, tstr) if p.kind == "return" and p.value is not None]
+        except OverflowError:
+            spaths = []
+        bad, good, unknown = [], 0, 0
+
+        def offset_dependent(e: ast.AST) -> bool:
+            return any(isinstance(x, ast.Attribute) and x.attr == "utcoffset" for x in ast.walk(e))
+
+        def unsigned(e: ast.AST) -> bool:
+            """every read of the offset inside ``e`` is under abs()"""
+            if isinstance(e, ast.Call) and dotted(e.func) in ("abs", "math.fabs"):
+                return True
+            if isinstance(e, ast.Attribute) and e.attr == "utcoffset":
+                return False
+            return all(unsigned(c) for c in ast.iter_child_nodes(e))
+
+        for p in spaths:
+            if _unk(p.value):
+                unknown += 1
+            sign_known = any(isinstance(t, ast.Compare) and offset_dependent(t) for t, _pol in _fc(p.conds))
+            for n in ast.walk(p.value):
+                operand = None
+                if isinstance(n, ast.BinOp) and isinstance(n.op, (ast.FloorDiv, ast.Mod)) and not (isinstance(n.left, ast.Constant) and isinstance(n.left.value, str)) and not isinstance(n.left, ast.JoinedStr):
+                    operand = n.left
+                if isinstance(n, ast.Call) and dotted(n.func) == "divmod" and n.args:
+                    operand = n.args[0]
+                if operand is None or not offset_dependent(operand):
+                    continue
+                if unsigned(operand) or sign_known:
+                    good += 1
+                else:
+                    bad.append(ast.unparse(n)[:70])
         uses_z = any(isinstance(c, ast.Constant) and isinstance(c.value, str) and "%z" in c.value for c in ast.walk(tstr))
         if bad:
             run.ob("C10.R8", "TimestampType.__str__|offset", False,
                    f"string(timestamp) computes the offset fields with `{bad[0]}` on the signed offset: floor division rounds toward minus infinity, so a negative offset with minutes (-03:30) is rendered as another instant (-04:30) and timestamp(string(t)) != t", ct.loc(tstr))
-        elif uses_z or derived:
-            run.ob("C10.R8", "TimestampType.__str__|offset", True, "string(timestamp) takes the offset from strftime('%z') / from the magnitude of the offset with a separate sign", ct.loc(tstr))
+        elif (uses_z or good) and not unknown:
+            run.ob("C10.R8", "TimestampType.__str__|offset", True, "string(timestamp) takes the offset from strftime('%z') / from the magnitude of the offset with the sign decided separately", ct.loc(tstr))
         else:
             run.inconclusive("C10.R8", "TimestampType.__str__", "how the offset is rendered was not recognised")
     # R5 -----------------------------------------------------------------
